@@ -16,8 +16,8 @@ Module Names.
 Import Coq.Strings.String.
 (* OBLIGATION *)
 Theorem translated_functions :
-  G.translated = ["Begin"; "Ceiling"; "Clear"; "Empty"; "End"; "First"; "Floor"; "Get"; "GetNode"; "Iterator_Next"; "Iterator_Node"; "Iterator_Prev"; "Key"; "Last"; "Left"; "New"; "NewWith"; "NextTo"; "Node_Next"; "Node_Prev"; "Node_Size"; "PrevTo"; "Put"; "Remove"; "Right"; "Tree_Iterator"; "Tree_Size"; "Value"; "bottom"; "doublerot"; "put"; "putFix"; "remove"; "removeFix"; "removeMin"; "rotate"; "singlerot"; "walk1"]%string
-  /\ G.skipped = ["Keys"; "String"; "Values"; "output"]%string.
+  G.translated = ["Begin"; "Ceiling"; "Clear"; "Empty"; "End"; "First"; "Floor"; "Get"; "GetNode"; "Iterator_Next"; "Iterator_Node"; "Iterator_Prev"; "Key"; "Keys"; "Last"; "Left"; "New"; "NewWith"; "NextTo"; "Node_Next"; "Node_Prev"; "Node_Size"; "PrevTo"; "Put"; "Remove"; "Right"; "Tree_Iterator"; "Tree_Size"; "Value"; "Values"; "bottom"; "doublerot"; "put"; "putFix"; "remove"; "removeFix"; "removeMin"; "rotate"; "singlerot"; "walk1"]%string
+  /\ G.skipped = ["String"; "output"]%string.
 Proof. repeat split. Qed.
 Print Assumptions translated_functions.
 End Names.
